@@ -224,6 +224,89 @@ theorem scanner_is_preprocRe (s : List Char) (p : Nat) (c : Caps) (hp : p ≤ s.
     · have : (ch.toNat == 126) = false := by simpa [tilde] using hch
       simp [ms, stepChar, h1, this, hch]
 
+/-- byte positions of the occurrences of a segment list laid out from position `p` -/
+def occSpans : List Seg → Nat → List (Nat × Nat)
+  | [], _ => []
+  | .lit _ :: r, p => occSpans r (p + 1)
+  | .occ w :: r, p => (p, p + w.length + 2) :: occSpans r (p + w.length + 2)
+
+/-- `FindAllStringIndex` for a regexp that never matches the empty string (the loop of `ReplaceAllStringFunc`): the
+leftmost match at or after `p` — at each start the first way in priority order —, then on from its end -/
+def findAll (r : Re) (s : List Char) : Nat → Nat → List (Nat × Nat)
+  | 0, _ => []
+  | n + 1, p =>
+    if s.length ≤ p then [] else
+    match (ms s r ⟨p, []⟩).head? with
+    | some t => (p, t.pos) :: findAll r s n t.pos
+    | none => findAll r s n (p + 1)
+
+theorem not_startsOcc_of (c : Nat) (rest : Bytes) (h : c ≠ tilde ∨ matchAt rest = none) :
+    ¬ StartsOcc (c :: rest) := by
+  rintro ⟨w, r, hw, he⟩
+  simp only [List.cons_append, List.cons.injEq] at he
+  obtain ⟨hc, hr⟩ := he
+  rcases h with h | h
+  · exact h hc
+  · rw [hr, matchAt_of_word w r hw] at h; cases h
+
+/-- **the scanner walks the text exactly as `ReplaceAllStringFunc` does with the regenerated `preprocRe`**: the
+occurrences it finds, with their positions, are the non-overlapping leftmost matches of the regexp -/
+theorem scan_is_findAll (s : List Char) : ∀ (fuel p : Nat) (t : List Char), s.drop p = t → p ≤ s.length →
+    t.length ≤ fuel → occSpans (scan (t.map Char.toNat)) p = findAll Gen.preprocRe s fuel p := by
+  intro fuel
+  induction fuel using Nat.strongRecOn with
+  | _ fuel ih =>
+    intro p t hd hp hf
+    cases t with
+    | nil =>
+      have hlen := length_of_drop hd hp
+      simp at hlen
+      cases fuel with
+      | zero => simp [scan, scanAux, occSpans, findAll]
+      | succ n => simp [scan, scanAux, occSpans, findAll, hlen]
+    | cons ch t' =>
+      have hlen := length_of_drop hd hp
+      simp only [List.length_cons] at hlen hf
+      cases fuel with
+      | zero => omega
+      | succ n =>
+        have hms := scanner_is_preprocRe s p [] hp
+        rw [hd] at hms
+        have hd1 : s.drop (p + 1) = t' := drop_succ_of_drop hd
+        simp only [findAll, if_neg (show ¬ s.length ≤ p by omega)]
+        by_cases hch : ch.toNat = tilde
+        · simp only [hch, if_true] at hms
+          cases hm : matchAt (t'.map Char.toNat) with
+          | none =>
+            rw [hm] at hms
+            simp only [hms, List.head?_nil]
+            rw [List.map_cons, scan_cons_lit _ _ (not_startsOcc_of _ _ (.inr hm))]
+            simp only [occSpans]
+            exact ih n (by omega) (p + 1) t' hd1 (by omega) (by omega)
+          | some w =>
+            rw [hm] at hms
+            simp only [hms, List.head?_cons]
+            obtain ⟨hw, r, hr⟩ := matchAt_some hm
+            rw [List.map_cons, hch, hr, ← List.cons_append, scan_cons_occ w r hw]
+            simp only [occSpans, List.cons.injEq, true_and]
+            have hr' : (t'.drop (w.length + 1)).map Char.toNat = r := by
+              rw [List.map_drop, hr]; simp
+            have hd2 : s.drop (p + w.length + 2) = t'.drop (w.length + 1) := by
+              rw [show p + w.length + 2 = (p + 1) + (w.length + 1) by omega, ← List.drop_drop, hd1]
+            have hwl : w.length + 1 ≤ t'.length := by
+              have := congrArg List.length hr; simp at this; omega
+            rw [← hr']
+            exact ih n (by omega) (p + w.length + 2) _ hd2 (by omega) (by simp; omega)
+        · simp only [hch, if_false] at hms
+          simp only [hms, List.head?_nil]
+          rw [List.map_cons, scan_cons_lit _ _ (not_startsOcc_of _ _ (.inl hch))]
+          simp only [occSpans]
+          exact ih n (by omega) (p + 1) t' hd1 (by omega) (by omega)
+
+/-- non-vacuity: the two occurrences of `a ~x~ ~~y~` at [2,5) and [7,10) -/
+example : findAll Gen.preprocRe "a ~x~ ~~y~".toList 10 0 = [(2, 5), (7, 10)] ∧
+    occSpans (scan ("a ~x~ ~~y~".toList.map Char.toNat)) 0 = [(2, 5), (7, 10)] := by decide
+
 /-- non-vacuity: `a ~x~ ~~y~` — occurrences at 2 and 7, none at 6 -/
 example : (ms "a ~x~ ~~y~".toList Gen.preprocRe ⟨2, []⟩, ms "a ~x~ ~~y~".toList Gen.preprocRe ⟨6, []⟩,
     ms "a ~x~ ~~y~".toList Gen.preprocRe ⟨7, []⟩) = ([⟨5, []⟩], [], [⟨10, []⟩]) := by decide
